@@ -25,3 +25,8 @@ func VerifRecordTemplateData(m *AuthenticatorMux, rec func(name string, data int
 		a.templates = &verifRecTemplate{inner: a.templates, rec: rec}
 	}
 }
+
+// VerifRecordTemplateDataOne does the same for one Authenticator built by NewAuthenticator.
+func VerifRecordTemplateDataOne(a *Authenticator, rec func(name string, data interface{})) {
+	a.templates = &verifRecTemplate{inner: a.templates, rec: rec}
+}
